@@ -234,7 +234,7 @@ func (w *World) atomsInto(fi *FuncInfo, fd *funcDefs, e ast.Expr, a *Atoms, seen
 		}
 		switch o := obj.(type) {
 		case *types.Const:
-			a.Idents["const:"+short(o.Pkg().Path())+"."+o.Name()] = true
+			a.Idents["const:"+short(objPkgPath(o))+"."+o.Name()] = true
 			if o.Val() != nil {
 				a.Lits[o.Val().ExactString()] = true
 			}
@@ -245,7 +245,7 @@ func (w *World) atomsInto(fi *FuncInfo, fd *funcDefs, e ast.Expr, a *Atoms, seen
 				return
 			}
 			if o.Pkg() != nil && o.Parent() == o.Pkg().Scope() {
-				a.Idents["global:"+short(o.Pkg().Path())+"."+o.Name()] = true
+				a.Idents["global:"+short(objPkgPath(o))+"."+o.Name()] = true
 				return
 			}
 			if rx, ok := fd.rangeOf[o]; ok {
@@ -283,12 +283,12 @@ func (w *World) atomsInto(fi *FuncInfo, fd *funcDefs, e ast.Expr, a *Atoms, seen
 		// qualified identifier pkg.Name
 		switch o := info.Uses[x.Sel].(type) {
 		case *types.Const:
-			a.Idents["const:"+short(o.Pkg().Path())+"."+o.Name()] = true
+			a.Idents["const:"+short(objPkgPath(o))+"."+o.Name()] = true
 			if o.Val() != nil {
 				a.Lits[o.Val().ExactString()] = true
 			}
 		case *types.Var:
-			a.Idents["global:"+short(o.Pkg().Path())+"."+o.Name()] = true
+			a.Idents["global:"+short(objPkgPath(o))+"."+o.Name()] = true
 		case *types.Func:
 			a.Calls["func:"+short(o.FullName())] = true
 		}
@@ -637,3 +637,11 @@ func (w *World) funcsOfPkg(rel string) []*FuncInfo {
 }
 
 var _ = packages.NeedName
+
+// objPkgPath: package path of an object, "" for universe objects (true, false, nil, iota).
+func objPkgPath(o types.Object) string {
+	if o == nil || o.Pkg() == nil {
+		return ""
+	}
+	return o.Pkg().Path()
+}
